@@ -96,6 +96,11 @@ def run_check(mod, tier, seed, replay=None, budget_s=None):
     specs = mod.cases(tier, seed)
     for i, s in enumerate(specs):
         s.setdefault("_i", i)
+    # deterministic shuffle: when the wall-clock budget ends a run early, every part of the workload (and every
+    # statistical cell) has been served evenly instead of the tail being cut off
+    import random
+
+    random.Random(int(seed) * 7919 + 13).shuffle(specs)
     batch = getattr(mod, "BATCH", 10)
     if isinstance(batch, dict):
         batch = batch[tier]
